@@ -17,6 +17,7 @@ type rdItem struct {
 	data []byte // nil for markers
 	eof  bool
 	err  bool
+	glue bool // the bytes join the segment of the item before (if that is still unread data)
 }
 
 // Script is an in-memory sonic.Stream. The read side returns what the driver
@@ -145,7 +146,13 @@ func (s *Script) Readable() bool {
 
 // Feed makes more input available. In inline mode a parked read completes.
 func (s *Script) Feed(it rdItem) {
-	s.rq = append(s.rq, it)
+	if it.glue && it.data != nil && len(s.rq) > 0 && s.rq[len(s.rq)-1].data != nil {
+		// one segment: a single transport read returns both frames
+		last := &s.rq[len(s.rq)-1]
+		last.data = append(append([]byte{}, last.data...), it.data...)
+	} else {
+		s.rq = append(s.rq, it)
+	}
 	if !s.deferred {
 		s.Readable()
 	}
